@@ -535,7 +535,7 @@ theorem restart_closed_fails :
         e.prev = [0] ∨ hasId toyTwin (Pseudo.run toyTwin [0] 100 twinHistory).tree.els e.prev = true) := by
   have h : (Pseudo.run toyTwin [0] 100 twinHistory).tree.els = [kA, kT1, kC2] := by
     simp [Pseudo.run, twinHistory, Pseudo.step, Pseudo.addCredential, Pseudo.storeNew, Pseudo.restart, Pseudo.fresh,
-      Tree.empty, gatherKind, Kind.isSome, gather, drain, dbInsert, dictSet, toyTwin, kA, kT1, kT2, kC2, Token.ok,
+      Tree.empty, gatherKind, Kind.isSome, gather, drain, dbInsert, dictSet, toyTwin, kA, kT1, kT2, kC2, Token.ok, Token.vok,
       Token.sized, Token.valid, Token.id, Token.signed, hasId, kidsOf, othersOf, Token.ofDatabaseTuple,
       Token.ofHash]
   refine ⟨h, ?_⟩
@@ -569,14 +569,15 @@ theorem init_bound (prev sig : Bytes) (content chash : Option Bytes) :
 theorem gather_token_matches_source (tr : Tree) (t : Token) :
     Gen.gatherTree.eval (gatherVal C g tr t) = gatherAct C g tr t := by
   unfold Gen.gatherTree gatherAct gatherKind
-  simp only [DTree.eval, Cond.eval, gatherVal, Token.ok, Token.sized, bne]
+  simp only [DTree.eval, Cond.eval, gatherVal, Token.ok, Token.vok, Token.sized, bne]
   rcases Bool.eq_false_or_eq_true (t.prev.length == g.length) with h1 | h1 <;>
   rcases Bool.eq_false_or_eq_true (t.chash.length == g.length) with h2 | h2 <;>
+  rcases Bool.eq_false_or_eq_true (t.sig.length == C.sigLen) with h7 | h7 <;>
   rcases Bool.eq_false_or_eq_true (t.valid C) with h3 | h3 <;>
   rcases Bool.eq_false_or_eq_true (t.prev == g) with h4 | h4 <;>
   rcases Bool.eq_false_or_eq_true (hasId C tr.els t.prev) with h5 | h5 <;>
   rcases Bool.eq_false_or_eq_true (hasId C tr.els (t.id C)) with h6 | h6 <;>
-  simp only [h1, h2, h3, h4, h5, h6] <;> try (simp; done)
+  simp only [h1, h2, h3, h4, h5, h6, h7] <;> try (simp; done)
   all_goals
     obtain ⟨x, hx⟩ := lookup_of_hasId h6
     simp only [hx]
@@ -609,11 +610,13 @@ theorem verify_loop_matches_source (els : List Token) (cur : Token) :
     Gen.verifyLoopTree.eval (walkVal C g els cur) = walkAct C g els cur ∧
     Gen.rootPathLoopTree.eval (walkVal C g els cur) = walkAct C g els cur := by
   unfold Gen.verifyLoopTree Gen.rootPathLoopTree walkAct
-  simp only [DTree.eval, Cond.eval, walkVal]
+  simp only [DTree.eval, Cond.eval, walkVal, Token.vok, bne]
+  rcases Bool.eq_false_or_eq_true (cur.chash.length == g.length) with h0 | h0 <;>
+  rcases Bool.eq_false_or_eq_true (cur.sig.length == C.sigLen) with h7 | h7 <;>
   rcases Bool.eq_false_or_eq_true (cur.valid C) with h1 | h1 <;>
   rcases Bool.eq_false_or_eq_true (cur.prev == g) with h2 | h2 <;>
   rcases Bool.eq_false_or_eq_true (hasId C els cur.prev) with h3 | h3 <;>
-  simp only [h1, h2, h3] <;> try (simp; done)
+  simp only [h0, h7, h1, h2, h3] <;> try (simp; done)
   · obtain ⟨x, hx⟩ := lookup_of_hasId h3
     simp [hx]
   · have := lookup_isSome C els cur.prev
@@ -632,7 +635,7 @@ theorem walk_follows_act (els : List Token) (n : Nat) (cur : Token) :
       | _ => none := by
   rw [walk]
   unfold walkAct
-  by_cases hv : (!(cur.chash.length == g.length && cur.valid C)) = true
+  by_cases hv : (!(cur.chash.length == g.length && cur.vok C)) = true
   · rw [if_pos hv, if_pos hv]
   · rw [if_neg hv, if_neg hv]
     by_cases hg : (cur.prev == g) = true
@@ -704,10 +707,10 @@ example : WireOk toy wA := by unfold WireOk; decide
 example : Chained toy (List.replicate 32 0) [wA] := .snoc [] wA .nil (by decide) (Or.inl rfl) (by decide)
 /-- the model computes: the final state of the history above, and of another order with a waiting area of one -/
 example : gatherAll toy [0] 100 Tree.empty hist = ⟨[tA, tB, tC], [tD]⟩ := by
-  simp [gatherAll, gather, drain, Tree.empty, hist, toy, tA, tB, tC, tD, tF, Token.ok, Token.sized, Token.valid, Token.id,
+  simp [gatherAll, gather, drain, Tree.empty, hist, toy, tA, tB, tC, tD, tF, Token.ok, Token.vok, Token.sized, Token.valid, Token.id,
     Token.signed, hasId, uncAdd, uncStore, kidsOf, othersOf, Token.same]
 example : Fits toy [0] 1 Tree.empty [tB, tA, tC] := by
-  simp [Fits, gatherKind, storeLen, gather, drain, Tree.empty, toy, tA, tB, tC, Token.ok, Token.sized, Token.valid, Token.id,
+  simp [Fits, gatherKind, storeLen, gather, drain, Tree.empty, toy, tA, tB, tC, Token.ok, Token.vok, Token.sized, Token.valid, Token.id,
     Token.signed, Token.plain, hasId, uncAdd, uncStore, kidsOf, othersOf, Token.same]
 /-- two keys: a signature is the key byte; `tX` is signed by key [7] but hangs off the genesis of key [5] -/
 def toyK : Keyed := ⟨fun x => [x.foldl (· + ·) 0], fun k _ s => s == k, fun _ => 1⟩
@@ -720,7 +723,7 @@ example : (View.open ⟨[5], some [9, 9]⟩ 100).genesis toyK = [5] ∧ (⟨[5],
 def tAbad : Token := { tA with content := some [66] }
 def tAgood : Token := { tA with content := some [10] }
 example : (gatherAll toy [0] 100 Tree.empty [tA, tAbad, tAgood]).els = [tAgood] := by
-  simp [gatherAll, gather, drain, Tree.empty, toy, tA, tAbad, tAgood, Token.ok, Token.sized, Token.valid, Token.id, Token.signed, hasId,
+  simp [gatherAll, gather, drain, Tree.empty, toy, tA, tAbad, tAgood, Token.ok, Token.vok, Token.sized, Token.valid, Token.id, Token.signed, hasId,
     absorb, Token.receiveContent, kidsOf, othersOf]
 example : verify toy [0] ⟨[tA, tB, tC], []⟩ tC 1000 = true := by decide
 example : rootPath toy [0] ⟨[tA, tB, tC], []⟩ tC 2 = [tC, tA] := by decide
